@@ -173,3 +173,15 @@ ROUND6 = {
 }
 for _k, _v in ROUND6.items():
     ADDENDA[_k] = ADDENDA.get(_k, "") + _v
+
+# Rules shared between neighbouring properties in the seventh session (DESIGN.md §10.1, "Six changes ...").
+ROUND7 = {
+    "C07": " Session 7: the partial / delete filters of the entity notifications carry the control kind their builder was asked for (C18-R6c, imported as R17).",
+    "C11": " Session 7: the copy-modify-store cycles on the use-case data are atomic under one device-wide lock (C20-R1, run as O9): an unlocked cycle lets two appends write the spare slot of a backing array a snapshot shares.",
+    "C12": " Session 7: application event handlers are started asynchronously by Publish, core handlers synchronously (C15-R3, imported as R13): a verdict given from a handler cannot wait on Publish.",
+    "C16": " Session 7: the timestamp written is in the parser's layout table and UTC on both sides (C19-R1, run as R14).",
+    "C18": " Session 7: no unguarded index or constant slice on wire-optional data on the path that recognises the function of a command (C05-R2, imported as R9).",
+    "C20": " Session 7: the function-data store hands out copies taken under its lock and never the stored pointer (C11-O2, imported as R10).",
+}
+for _k, _v in ROUND7.items():
+    ADDENDA[_k] = ADDENDA.get(_k, "") + _v
